@@ -5,12 +5,14 @@ mod c02;
 mod c03;
 mod c04;
 mod c05;
+mod c06;
 mod c09;
 mod c10;
 mod c11;
 mod c12;
 mod c14;
 mod c15;
+mod c16;
 mod ctx;
 mod docs;
 mod obs;
@@ -35,12 +37,14 @@ fn registry(id: &str) -> Option<Box<dyn Check>> {
         "C03" => Some(Box::new(c03::C03)),
         "C04" => Some(Box::new(c04::C04::new())),
         "C05" => Some(Box::new(c05::C05::new())),
+        "C06" => Some(Box::new(c06::C06)),
         "C09" => Some(Box::new(c09::C09::new())),
         "C10" => Some(Box::new(c10::C10)),
         "C11" => Some(Box::new(c11::C11)),
         "C12" => Some(Box::new(c12::C12)),
         "C14" => Some(Box::new(c14::C14)),
         "C15" => Some(Box::new(c15::C15)),
+        "C16" => Some(Box::new(c16::C16)),
         _ => None,
     }
 }
